@@ -940,6 +940,7 @@ func (w *world) startCluster() bool {
 	w.c = c
 	c.StartMaster()
 	c.StartVolume()
+	c.StartVolume() // second volume server: the fault clause makes one of the two refuse uploads
 	if !c.WaitAssign("", 120) {
 		return false
 	}
@@ -1030,7 +1031,11 @@ func main() {
 			Spec caseSpec `json:"spec"`
 		}
 		r.Must(r.LoadReplay(&d), "load replay")
-		w.runCase(d.Spec)
+		if d.Spec.Kind == "fault" {
+			w.runFaultRounds() // timing-dependent: the whole clause is repeated
+		} else {
+			w.runCase(d.Spec)
+		}
 		w.stop()
 		r.Nontrivial("replay")
 		r.Nontrivial("replay2")
@@ -1055,6 +1060,10 @@ func main() {
 		if r.Violations() > 30 {
 			break
 		}
+	}
+	if only == "" || only == "fault" {
+		w.runFaultRounds()
+		fmt.Printf("progress: fault clause done, %.0fs\n", time.Since(t0).Seconds())
 	}
 	for _, fe := range w.filers {
 		if !fe.Proc.Alive() {
